@@ -103,8 +103,8 @@ ArgsOf(e) ==
       [] e.op = "Create"  -> [lo |-> e.lo, hi |-> e.hi]
       [] e.op = "Free"    -> [h |-> e.h]
       [] e.op = "Encode"  -> [h |-> e.h, lang |-> LangNo(e.lang), coin |-> e.coin]
-      [] e.op = "Decode"  -> [str |-> e.str, len |-> e.len, coin |-> e.coin, lang |-> 0, wantlang |-> e.wantlang, sreg |-> e.sreg, fail |-> e.fail]
-      [] e.op = "DecodeX" -> [str |-> e.str, len |-> e.len, coin |-> e.coin, lang |-> LangNo(e.lang), wantlang |-> FALSE, sreg |-> e.sreg, fail |-> e.fail]
+      [] e.op = "Decode"  -> [str |-> e.str, len |-> e.len, coin |-> e.coin, lang |-> 0, wantlang |-> e.wantlang, sreg |-> e.sreg, fail |-> e.fail, idn |-> e.idn]
+      [] e.op = "DecodeX" -> [str |-> e.str, len |-> e.len, coin |-> e.coin, lang |-> LangNo(e.lang), wantlang |-> FALSE, sreg |-> e.sreg, fail |-> e.fail, idn |-> e.idn]
       [] e.op = "Store"   -> [h |-> e.h]
       [] e.op = "Load"    -> [buf |-> e.buf]
       [] e.op = "Crypt"   -> [h |-> e.h, pw |-> e.pw, len |-> e.len]
